@@ -16,6 +16,10 @@ from valida.schema import Schema
 warnings.simplefilter("ignore")
 
 
+VARPOS = ("is_instance", "keys_is_instance", "keys_contain_any_of", "keys_contain_all_of", "keys_contain_one_of", "keys_equal_to",
+          "allowed_keys", "required_keys", "forbidden_keys")
+
+
 def mutate_tree(g, t):
     """one atom changed: an argument, a callable, a class, an operator, operand order (commuted: equal)"""
     r = g.r
@@ -36,6 +40,21 @@ def mutate_tree(g, t):
     if t[0] == "null" or kind in ("same", "commute", "op"):
         return copy.deepcopy(t), "rebuilt"
     _, cls, ctor, args, kwargs = t
+    # one argument more or less (keyword for `**items`, positional for `*args` constructors)
+    if ctor == "items_contain" and r.random() < 0.5:
+        kwargs = dict(kwargs)
+        if kwargs and r.random() < 0.5:
+            kwargs.pop(r.choice(list(kwargs)))
+            return ("leaf", cls, ctor, list(args), kwargs), "kw-drop"
+        kwargs[r.choice([k for k in ("zz", "a", "b", "k9") if k not in kwargs] or ["zz9"])] = r.choice([1, "a", None])
+        return ("leaf", cls, ctor, list(args), kwargs), "kw-add"
+    if ctor in VARPOS and r.random() < 0.5:
+        args = list(args)
+        if args and r.random() < 0.5:
+            args.pop(r.randrange(len(args)))
+            return ("leaf", cls, ctor, args, dict(kwargs)), "arg-drop"
+        args.insert(r.randrange(len(args) + 1), r.choice([int, str] if "instance" in ctor else ["zz", "a", 1]))
+        return ("leaf", cls, ctor, args, dict(kwargs)), "arg-add"
     if kind == "arg" and (args or kwargs):
         args, kwargs = list(args), dict(kwargs)
         pool = [0, 1, 2, 1.0, True, "a", "b", None, [1], [1.0], {"a": 1}]
@@ -168,7 +187,18 @@ def make_path_case(g, parts, docs):
     i = r.randrange(len(parts)) if parts else None
     m = list(copy.deepcopy(parts))
     what = "rebuilt"
-    if i is not None:
+    modifier = None
+    x = r.random()
+    if x < 0.08:
+        m.append(r.choice([("prim", "a"), ("prim", 0), terms.gen_part(g, 0.3)]))
+        what = "append-part"
+    elif x < 0.16 and len(parts) > 1:
+        m.pop()
+        what = "drop-last-part"
+    elif x < 0.26:
+        modifier = r.choice(["length", "dtype", "map_keys", "map_values", "first", "last", "single", "all", "source"])
+        what = "modifier-" + modifier
+    elif i is not None:
         m[i], what = mutate_part(g, parts[i])
     c = Case("eq_path", {"x": [terms.part_desc(p) for p in parts], "y": [terms.part_desc(p) for p in m], "mutation": what})
     c.py = ("from valida.conditions import *\nfrom valida.datapath import *\nimport pathlib\n"
@@ -177,6 +207,15 @@ def make_path_case(g, parts, docs):
     bx, by, bx2 = mk(parts), mk(m), mk(parts)
     if bx[0] != "ok" or by[0] != "ok":
         return None
+    if modifier is not None:
+        # the same parts with a modifier (or a bound document) on one side only
+        if modifier == "source":
+            by = enc.outcome(lambda: DP.DataPath(*[terms.build_part(p) for p in m], source_data=docs[0]))
+        else:
+            by = enc.outcome(lambda: getattr(by[1], modifier)())
+        if by[0] != "ok":
+            return None
+        c.py += f"\n# y carries the modifier / bound document: {modifier}"
     behave = lambda o, d: enc.outcome(lambda: enc.enc_val(o.get_data(d, return_paths=True)))  # noqa: E731
     check_pair(c, bx[1], by[1], bx2[1], enc.enc_path, "eq_path", behave, docs)
     c.features.add(("path", what))
@@ -242,6 +281,38 @@ def transitivity_case(g, t):
     return c
 
 
+def patharg_pair_case(g):
+    """conditions whose argument is a data path: against the literal of the same spelling, against the same path
+    with a modifier, against another path, against a rebuilt copy"""
+    from props import c17
+    from props.c11 import PathArg
+    r = g.r
+    key = r.choice(["a", "b", 0])
+    ctor = r.choice(["equal_to", "not_equal_to", "less_than", "in_"])
+    base = PathArg([("prim", key)], None, None)
+    variants = {
+        "literal": key,
+        "datum": PathArg([("prim", key)], r.choice(["length", "dtype"]), None),
+        "other-path": PathArg([("prim", "zz")], None, None),
+        "longer-path": PathArg([("prim", key), ("prim", 0)], None, None),
+        "rebuilt": PathArg([("prim", key)], None, None),
+    }
+    what = r.choice(list(variants))
+    tx = ("leaf", "Value", ctor, [base], {})
+    ty = ("leaf", "Value", ctor, [variants[what]], {})
+    c = Case("eq_cond_patharg", {"x": c17.tree_py(tx), "y": c17.tree_py(ty), "mutation": what})
+    c.py = ("from valida.conditions import *\nfrom valida.datapath import *\n"
+            f"x = {c17.tree_py(tx)}\ny = {c17.tree_py(ty)}\nprint(x == y, y == x)")
+    bx = enc.outcome(lambda: terms.build_tree(c17.realise(tx)))
+    by = enc.outcome(lambda: terms.build_tree(c17.realise(ty)))
+    bx2 = enc.outcome(lambda: terms.build_tree(c17.realise(tx)))
+    if bx[0] != "ok" or by[0] != "ok":
+        return None
+    check_pair(c, bx[1], by[1], bx2[1], lambda o: enc.enc_cond(o), "eq_cond", lambda o, d: filter_obs(o, d), PROBES)
+    c.features.add(("cond-patharg", what))
+    return c
+
+
 def matches_known(entry, case, name, detail):
     m = entry.get("match", {})
     if m.get("predicate") and m["predicate"] != name:
@@ -263,6 +334,11 @@ def generate(rng, n, tier):
     cases.append(c)
     while len(cases) < n:
         x = rng.random()
+        if x < 0.04:
+            c = patharg_pair_case(g)
+            if c is not None:
+                cases.append(c)
+            continue
         if x < 0.35:
             kind = rng.choice(["value", "value", "key", "index", "value+key"])
             t = terms.gen_tree(g, kind, depth=rng.choice([0, 1, 2]), null_p=0.08)
